@@ -61,3 +61,7 @@ let wprem (wi : walk_inst) = print_endline (b2s (wf_stg_b wi.w_graph) ^ " " ^ b2
 let () = register "kfdcpremises" (fun () -> wprem (kfdc_walk (next_kfdc_inst ())))
 let () = register "kpccpremises" (fun () -> wprem (kpcc_walk (next_kpcc_inst ())))
 let () = register "walkspremises" (fun () -> wprem (next_walk_inst ()))
+(* the same encoders compared with the implementation's LP by the verified checker LinEquiv.milp_equiv_b (theorem milp_equiv_sound) *)
+let () = register "walks_eq" (fun () -> let m = encode_walks (next_walk_inst ()) in equiv_report m)
+let () = register "kpcc_eq" (fun () -> let m = encode_kpcc (next_kpcc_inst ()) in equiv_report m)
+let () = register "kfdc_eq" (fun () -> let m = encode_kfdc (next_kfdc_inst ()) in equiv_report m)
